@@ -413,10 +413,12 @@ def unitary_seam(chooser):
     orig = scipy.stats.unitary_group
     fake = ScriptedUnitaries(chooser)
     scipy.stats.unitary_group = fake
+    orig.rvs = fake.rvs         # instance attribute: also reaches a module-level `from scipy.stats import unitary_group`
     try:
         yield fake
     finally:
         scipy.stats.unitary_group = orig
+        del orig.rvs
 
 
 def alphabet(dim):
